@@ -298,6 +298,17 @@ func (s *Synchronizer) advanceView(syncInfo hotstuff.SyncInfo) {
 		s.logger.Infof("advanceView: Failed to verify sync info: %v", err)
 		return
 	}
+	if _, haveAgg := syncInfo.AggQC(); haveAgg && qc != nil && view == s.state.View() &&
+		qc.View() < s.state.HighQC().View() && s.leaderRotation.GetLeader(view+1) == s.config.ID() &&
+		(s.lastTimeout == nil || s.lastTimeout.View != view) {
+		// Somebody else's aggregate QC ends the current view, it was assembled without this replica's
+		// timeout, and this replica - the vote collector - holds a newer QC than any the aggregate knows.
+		// It leads the next view: its proposal would pair its own high QC with this aggregate and not
+		// verify. It times out instead (its timeout message spreads the newer QC) and enters the next
+		// view with the aggregate QC it builds from a quorum of timeouts that includes its own.
+		s.OnLocalTimeout()
+		return
+	}
 	if tc, ok := syncInfo.TC(); ok {
 		// remember the highest timeout certificate: it is sent along in timeout and new-view
 		// messages so that replicas that missed that round of timeouts can catch up.
